@@ -448,7 +448,33 @@ def _const(cv, dom):
     raise Unsupported(f"constant {cv!r}")
 
 
+def _same_value(k, A, dom):
+    """Operations on two occurrences of the *same* term (the memo returns one object per term): x - x, x / x, x == x ..."""
+    f = dom.fmt
+    if k == "subtract":
+        # x - x is +0 for finite x, NaN for an infinite one
+        return IV(np.where(A.emp, f.zero, f.zero), np.where(A.emp, f.zero, f.zero), A.nan | A.hasinf(), A.emp | (np.isinf(A.lo) & np.isinf(A.hi)))
+    if k == "divide":
+        bad = A.has0() | A.hasinf()
+        only_bad = ((A.lo == 0) & (A.hi == 0)) | (np.isinf(A.lo) & np.isinf(A.hi) & (A.lo == A.hi))
+        return IV(f.one + f.zero * A.lo * 0 if False else np.where(A.emp, f.one, f.one), np.where(A.emp, f.one, f.one), A.nan | bad, A.emp | only_bad)
+    if k in ("eq", "le", "ge"):
+        return BV(~A.emp, A.nan)
+    if k in ("ne", "lt", "gt"):
+        return BV(A.nan, ~A.emp)
+    if k in ("maximum", "minimum"):
+        return A
+    return None
+
+
 def _apply(k, a, dom):
+    if len(a) == 2 and a[0] is a[1] and isinstance(a[0], IV):
+        r = _same_value(k, a[0], dom)
+        if r is not None:
+            return r
+    if k == "multiply" and len(a) == 2 and a[0] is a[1] and isinstance(a[0], IV):
+        m = dom.absolute(a[0])
+        return dom.mul(m, m)
     if k in _ARITH:
         return getattr(dom, _ARITH[k])(a[0], a[1])
     if k in _UNARY:
